@@ -37,7 +37,7 @@ Lemma be_acc_shift acc a :
 Proof.
   unfold be_value. revert acc. induction a as [|x a IH]; intros acc.
   - cbn. lia.
-  - cbn [be_acc length]. rewrite IH. rewrite (IH (0 * 256 + x)%N).
+  - cbn [be_acc length]. rewrite IH. rewrite (IH (256 * 0 + x)%N).
     rewrite Nat2N.inj_succ, N.pow_succ_r'. lia.
 Qed.
 
